@@ -1,9 +1,12 @@
 package c02
 
 import (
+	"errors"
 	"fmt"
 	"strings"
 	"unicode/utf8"
+
+	parser "github.com/a-h/templ/parser/v2"
 
 	"verifharness/internal/core"
 	"verifharness/internal/drv"
@@ -244,6 +247,65 @@ func nonUTF8Sweep(prefix string, i int, pieces map[string]int) string {
 		}
 	}
 	return sb.String()
+}
+
+// A legitimate rejection.  a-h/parse's rune parsers look at ONE BYTE and take it as the code point of that number
+// (runeWhereParser: rune(match[0])), so parse.Whitespace - RuneInRanges(unicode.White_Space) - also eats a byte 0x85 (U+0085
+// NEL; Windows-1252 "...") and a byte 0xA0 (U+00A0; the Latin-1 no-break space).  Neither byte can start a character of
+// well-formed UTF-8, so only files that are not valid UTF-8 are concerned.  Where the run of "whitespace" is the trailing space
+// of an element, a string expression or a text (parser/v2/types.go: NewTrailingSpace decodes the run as UTF-8, meets U+FFFD
+// before any newline and answers ErrNonSpaceCharacter) the whole file is rejected: `<b>Prix</b>\xa0: 5` in a Latin-1 file,
+// "parsing error: non space character found".  Such a file is not in the property's quantifier (templates `templ generate`
+// accepts); the long-run generator writes one now and then (longrun.go, line kind 2: words behind </i> on the same line).
+//
+// Inside the body of an if / for / switch case / @call block the parser replaces whatever error the body gave by its own
+// "<statement>: expected nodes, but none were found" at the same place, so that is the message there.
+//
+// rejectedByteSpace decides it narrowly: the error is ErrNonSpaceCharacter (or the message a statement puts in its place), the source has a byte 0x85/0xA0 that is reached
+// from a '>' or '}' over horizontal byte-whitespace only, and the same source with exactly those bytes replaced by 0x80 (a lone
+// continuation byte like them, no White_Space code point) IS accepted by parse + generate.  Any other rejection stays a failure.
+func rejectedByteSpace(prefix, src string, err error) bool {
+	if !errors.Is(err, parser.ErrNonSpaceCharacter) && !strings.HasSuffix(strings.SplitN(err.Error(), ": line ", 2)[0], ": expected nodes, but none were found") {
+		return false
+	}
+	b := []byte(src)
+	found := false
+	for i := 0; i < len(b); i++ {
+		if b[i] != '>' && b[i] != '}' {
+			continue
+		}
+		for j := i + 1; j < len(b); j++ {
+			switch b[j] {
+			case ' ', '\t', '\r', '\v', '\f':
+				continue
+			case 0x85, 0xa0:
+				b[j] = 0x80
+				found = true
+				continue
+			}
+			break
+		}
+	}
+	if !found {
+		return false
+	}
+	_, err2 := probe.Prepare(prefix, string(b))
+	return err2 == nil
+}
+
+// nuByteSpaceFile: the i-th small file with a byte 0x85 / 0xA0 in a place where the parser's byte-wise whitespace reaches it:
+// behind an element, an expression or a void element on the same line (rejected today: counted and skipped; accepted after a
+// change of the parser: through the whole pipeline like any other file), and at the front of a line, of an element's content and
+// of a block (accepted).
+var nuByteSpaceBodies = []string{
+	"<b>Prix</b>\xa0: 5", "<i>x</i> \x85 y", "{ s0 }\xa0y", "{ s0 } \x85", "<br/>\xa0z", "<p>a</p> \xa0\xa1\xa2 b",
+	"if b0 {\n\t\t<i>x</i> \xa0y\n\t}", "for _, x := range xs {\n\t\t{ x }\x85\n\t}", "@wrap() {\n\t\t<b>x</b>\xa0\n\t}",
+	"\xa0: 5", "<p>\x85and so on</p>", "<p>\n\t\t\xa0: 5 \xa0\n\t</p>", "a\n\t\xa0y", "if b0 {\n\t\t\xa0y\n\t}", "{ s0 }\n\t\x85y",
+}
+
+func nuByteSpaceFile(prefix string, i int, pieces map[string]int) string {
+	pieces["non-UTF-8 piece: byte 0x85/0xA0 where the parser's byte-wise whitespace reaches it"]++
+	return "package main\n\ntempl " + prefix + "T0" + tgen.Sig + " {\n\t" + nuByteSpaceBodies[i] + "\n}\n"
 }
 
 // illFormedBytes: how many bytes of s are not part of a well-formed UTF-8 sequence (evidence only).
